@@ -85,6 +85,19 @@ def run(ctx, log):
             ctx.count("special-values")
             if not (o.startswith("OK") or o.startswith("ERR") or o.startswith("BUDGET")):
                 ctx.violate("an operation on a special value crashed instead of giving a value or an error value (%s build)" % prof, source=x, observed=o[:300])
+    extra_nc = progcheck.nested_names_family(ctx.quick) + progcheck.function_endings_family(ctx.quick)
+    extra_nc += ["functie gemiddelde(a, b, c) { functie deel(som) { som / c } deel(a + b + c) } gemiddelde(1, 2, 3)", "functie f(a, b, c, d) { functie g() { d = 1; [a, b, c, d] } g() } f(1, 2, 3, 4)",
+                 "functie f(p) { stel l1 = 1; stel l2 = 2; functie g(q) { l2 + q } g(p) } f(5)", "functie f(p) { functie g() { functie h() { p } h() } g() } f(5)"]
+    wv_ = []
+    ends_, _ = progcheck.gen_sources(ctx, 150 if ctx.quick else 3000, with_value_out=wv_, max_depth=3, end_with_statement=1.0)
+    extra_nc += ends_ + ["functie kwadraat(n) { n * n }; [kwadraat(2), kwadraat(3), \"klaar\"]; stel laatste = kwadraat(4)", "functie niets(x) { stel l = x }; [1.5, \"s\"]; stel u = niets(2)", "\"de waarde\"; stel a = 1; functie leeg() { } leeg(); stel b = leeg()"]
+    for prof in ("release", "debug"):
+        for x, o in zip(extra_nc, vlib.nlh("eval", ["30000 " + vlib.hexs(x) for x in extra_nc], tag="c05nc", profile=prof, timeout=900)):
+            ctx.seen(("no-crash", x, prof))
+            ctx.count("names-endings-statement-ending-programs")
+            if not (o.startswith("OK") or o.startswith("ERR") or o.startswith("BUDGET")):
+                ctx.violate("evaluation crashed instead of giving a value or an error value (%s build)" % prof, source=x, observed=o[:300])
+    progcheck.run_production(ctx, log, extra_nc[-(len(ends_) + 3):][: 120 if ctx.quick else 1500])
     rng = ctx.rng
     vocab = noise.vocabulary()
     findings = vlib.known_findings()
